@@ -139,3 +139,14 @@ claim("C07",
       "forced-visible, removed}, the field-state mapping and the visible filter. Layer-index arithmetic and value-level associativity are not decided.",
       "Trusted: rustc MIR; the Jsonnet visibility rule transcribed in rules/c07.py. The merge arithmetic of get_fields_order (Removed depths) stays with the tests.",
       "DESIGN.md §2 C07")
+claim("C09",
+      "CFG edge-dominance of guards over IR construction with origin equality; binder-insertion/duplicate-check pairing; ENVFLOW abstract interpretation of static environments vs the spec scoping table",
+      "Decides C09 structurally on the analyzer: (R1) variable IR nodes are built only behind env.vars.contains(<same name>), self/$/super "
+      "nodes only behind env.is_obj (every path passes the guard's true edge), and only the analyzer builds them — the evaluator's unchecked "
+      "lookups rest on exactly these guards; (R2) every local/parameter/object-local binder insertion sits on the vacant arm of a per-scope "
+      "duplicate check whose occupied arm is the matching error, static field names are checked, positional-after-named and non-literal import "
+      "paths (3 import kinds x all operand kinds) are errors; (R3) for all ~45 analysed AST positions the environment argument (creation, binder "
+      "lists with all/previous qualifier, is_obj) equals the specification's scoping table, including positions no test exercises (computed "
+      "field names see the outer scope only; a `for` source does not see its own variable); every table row must be analysed.",
+      "Trusted: rustc MIR; the scoping table transcribed from the Jsonnet specification in rules/c09.py. The evaluator's run-time environments are not compared.",
+      "DESIGN.md §2 C09, Appendix C")
